@@ -27,7 +27,7 @@ CFG_B = 'indent_columns=5\nindent_with_tabs=0\nsp_arith=remove\nsp_assign=remove
 U1 = b'int  a ;\nint   f(int x){return x+1;}\n'
 U2 = b'long   b=2 ;\nint g(int y){\nreturn y*2 ;}\n'
 NAME = 'src.c'
-OPS = ['W1', 'W2', 'WF', 'WS', 'RA', 'RB', 'OA']
+OPS = ['W1', 'W2', 'WF', 'WS', 'WE', 'RA', 'RB', 'OA']        # WE: the user empties the file (a zero-length text is a text like any other)
 KOPS = ['K_backup_write', 'K_temp_open', 'K_temp_write', 'K_rename', 'K_md5_open', 'K_md5_write', 'K_md5_close']
 
 _FMT = {}
@@ -138,7 +138,7 @@ def run_history(ops):
             sig = {'kind': 'history', 'op': op}
             rep = {'history': list(ops), 'step': i}
             if op[0] == 'W':
-                data = {'W1': U1, 'W2': U2, 'WF': F, 'WS': m.file}[op]
+                data = {'W1': U1, 'W2': U2, 'WF': F, 'WS': m.file, 'WE': b''}[op]
                 run.write(p, data)
                 m.write(data)
                 continue
